@@ -9,6 +9,7 @@
 EXTENDS AlphWatcher, TLC
 
 CONSTANTS MaxB, MaxEv, MaxH, MaxClock, PageSize, MaxReorg, MaxFail, MaxReq, MaxLook, MaxPerBlock,
+          MaxLag,       \* how often the reported height may fall back by one (lagging node / stale height)
           SharedTx,     \* TRUE: the events mined into one block belong to ONE transaction (several messages per tx)
           Boots,        \* FALSE: the polling path is never started (re-observation-only instance)
           Profile,      \* which template catalogue
@@ -48,7 +49,7 @@ SetToSeq(S) == IF S = {} THEN <<>> ELSE LET x == CHOOSE y \in S : TRUE IN <<x>> 
 
 MCInit ==
     /\ ChainInit /\ WInit /\ cfg.mainnet \in Mainnets /\ clock = 0
-    /\ cnt = [reorg |-> 0, fail |-> 0, req |-> 0, look |-> 0, nid |-> 0, reinc |-> 0]
+    /\ cnt = [reorg |-> 0, fail |-> 0, req |-> 0, look |-> 0, nid |-> 0, reinc |-> 0, lag |-> 0]
     /\ snapH = {} /\ snapR = {}
 
 Orphans == {b \in DOMAIN blocks : ~blocks[b].main}
@@ -61,6 +62,12 @@ MineEmpty ==
     /\ height < MaxH
     /\ height' = height + 1
     /\ UNCHANGED <<blocks, stream, foreign, tokans, clock, cnt>> /\ EnvKeep
+
+Lag ==
+    /\ cnt.lag < MaxLag /\ height > 0
+    /\ height' = height - 1
+    /\ cnt' = [cnt EXCEPT !.lag = @ + 1]
+    /\ UNCHANGED <<blocks, stream, foreign, tokans, clock>> /\ EnvKeep
 
 MineBlock(ts) ==
     /\ NB < MaxB /\ Len(stream) + Len(ts) <= MaxEv /\ height < MaxH
@@ -114,6 +121,7 @@ Env ==
   /\ run \notin {"ver", "clique"} /\ fet.st # "init" /\ han.st # "fwd" /\ (Boots => aux.starts > 0)
   /\
     \/ MineEmpty
+    \/ Lag
     \/ \E ts \in TplSeqs : MineBlock(ts)
     \/ \E b \in DOMAIN blocks : DoReorg(b) \/ Reinclude(b)
     \/ \E e \in StreamSet : Lookalike(e)
